@@ -189,6 +189,15 @@ class Interp:
                 super().__init__()
                 self.tag = tag
 
+            if self.cfg.get('meq'):
+                # maps with value equality (a dataclass with metadata):
+                # all of them are equal, each is its own object
+                def __eq__(self, other):
+                    return type(other) is type(self)
+
+                def __hash__(self):
+                    return 3
+
         self.ArgMap = ArgMap
         self.InnerHandle = InnerHandle
         self.inner_loads = 0
@@ -454,7 +463,9 @@ class Interp:
             # more name (C12: one more access path; its back-link is then
             # ambiguous and not judged any more)
             node = self.h.get(spec['ref'])
-            if node is None or not node.inserted or self.prop != 'C12':
+            if node is None or not node.inserted or not (
+                    self.prop == 'C12' or (self.prop == 'C11'
+                                           and self.cfg.get('alias_c11'))):
                 return None
             if spec['ref'] not in self.contained()[1]:
                 return None
@@ -977,6 +988,19 @@ class Interp:
                 if o is not self.h[hid].obj:
                     self.fail('C11', 'get_mismatch', f'{where}: layer {li} '
                               f'name {name!r} is not handle h{hid}')
+                st_ = self.h[hid]
+                if st_.aliased and self.cfg.get('alias_c11') and (
+                        st_.parent is mm and st_.key == name):
+                    # stored under several names: the back-link names the
+                    # place of the latest assignment for as long as the
+                    # handle stays there
+                    self.probes['aliased_handle_backlink_checked'] += 1
+                    if o.parent is not real or o.key != name:
+                        self.fail('C11', 'backlink', f'handle h{hid} was '
+                                  f'last assigned to {where!r} as {name!r} '
+                                  f'and is still there, its back-link says '
+                                  f'{"this map" if o.parent is real else type(o.parent).__name__}'
+                                  f' / {o.key!r}')
                 if (o.parent is not real or o.key != name) \
                         and not self.h[hid].aliased:
                     self.fail('C11', 'backlink', f'handle h{hid} stored '
@@ -1133,6 +1157,7 @@ class GenState:
         self.pending_clearer = None
         self.fileworlds = []
         self.all_ids = []
+        self.alias_c11 = False
 
     def new_id(self):
         self.next_id += 1
@@ -1181,7 +1206,7 @@ class GenState:
     def map_spec(self, depth, prefix):
         rng = self.rng
         spec = {'kind': 'map', 'id': f'm{self.new_id()}', 'children': []}
-        if rng.random() < .15:
+        if rng.random() < getattr(self, 'sub_p', .15):
             spec['sub'] = True          # an instance of a map subclass
         r = rng.random()
         n = 0 if r < .35 else rng.randint(1, 3)
@@ -1203,7 +1228,8 @@ class GenState:
     def valspec(self, depth, prefix):
         if depth == 0 and self.all_ids and self.rng.random() < .1:
             return {'kind': 'reuse', 'ref': self.rng.choice(self.all_ids)}
-        if self.prop == 'C12' and self.hids and self.rng.random() < .08:
+        if self.hids and self.rng.random() < (
+                .08 if self.prop == 'C12' else .1 if self.alias_c11 else 0):
             return {'kind': 'alias', 'ref': self.rng.choice(self.hids)}
         if self.rng.random() < .62 or depth >= 2:
             spec = self.handle_spec()
@@ -1229,10 +1255,16 @@ def generate(prop, run_seed, tier='quick', tolerate=frozenset()):
     k = crng.randint(3, len(alpha))
     alpha = crng.sample(alpha, k)
     gs = GenState(prop, rng, alpha, tolerate)
+    gs.alias_c11 = prop == 'C11' and crng.random() < .15
+    meq = crng.random() < (.5 if gs.alias_c11 else .04)
+    if meq:
+        gs.sub_p = .7
     w = dict(WEIGHTS[prop])
     for name in list(w):
         if name != 'set' and crng.random() < .25:
             w[name] = 0
+    if gs.alias_c11:
+        w['clear'] = 2.5
     kinds = [x for x, v in w.items() if v > 0]
     wts = [w[x] for x in kinds]
     deep = tier == 'thorough'
@@ -1277,6 +1309,7 @@ def generate(prop, run_seed, tier='quick', tolerate=frozenset()):
         if prop == 'C11' else crng.choice([None] * 6 + ['equal'])
     return {'format': 1, 'engine': 'restree',
             'config': {'alphabet': alpha, 'heq': heq,
+                       'alias_c11': gs.alias_c11, 'meq': meq,
                        'root_sub': crng.random() < .15,
                        'root_split': (crng.choice(['|', ':', '>'])
                                       if crng.random() < .07 else None)},
